@@ -15,6 +15,7 @@ inductive Expr where
   | tensor (a b : Expr)
   | dagger (a : Expr)
   | slice (a : Expr) (start stop : Option Int)
+  | sliceRev (a : Expr) (start stop : Option Int)
   | getItem (a : Expr) (i : Int)
   | interchange (a : Expr) (i j : Int) (left : Bool)
   | normalForm (a : Expr) (left : Bool)
@@ -44,6 +45,9 @@ def Expr.eval : Expr → Except Err Diagram
   | .slice a s t => match a.eval with
     | .error e => .error e
     | .ok x => x.slice s t
+  | .sliceRev a s t => match a.eval with
+    | .error e => .error e
+    | .ok x => x.sliceRev s t
   | .getItem a i => match a.eval with
     | .error e => .error e
     | .ok x => x.getItem i
